@@ -88,6 +88,11 @@ pub fn c13(run: &Run) -> Vec<String> {
     let f = fates(run);
     let stale = stale_finished(run);
     let sig = if stale { "[[sig:stale-finished-after-replacement]] " } else { "" };
+    for (_, e) in &run.events {
+        if let Ev::StaleDiscard { reason, id } = e {
+            bad.push(format!("job {id} was discarded ({reason}) to the handler that UpdateSettings had replaced before the job was submitted; the current handler never heard of it"));
+        }
+    }
     let mut missing = 0usize;
     for j in &run.jobs {
         let x = &f[&j.id];
@@ -274,10 +279,13 @@ pub fn c14(run: &Run) -> Vec<String> {
     if matches!(run.cfg.routing, Routing::Queuer | Routing::Sticky) {
         for (step, q, active, _cap, in_progress) in &run.probes {
             if let (Some(q), Some(active)) = (q, active) {
-                let after_resize_or_death = run.history[..=*step].iter().any(|e| matches!(e, Event::Resize(_) | Event::Kill(_) | Event::DieIn(..) | Event::KillAfterFinished(_) | Event::Drain));
-                if *q > 0 && *active < run.cfg.workers && !after_resize_or_death && run.cfg.routing == Routing::Queuer {
+                // (resizes change the pool under the probe and a draining factory hands nothing out; worker deaths
+                // do not excuse anything: at quiescence the dead worker has been replaced and its replacement is
+                // as available as any worker)
+                let after_resize_or_death = run.history[..=*step].iter().any(|e| matches!(e, Event::Resize(_) | Event::Drain | Event::StopSlowly(_) | Event::ArmKillOnDiscard(_)));
+                if *q > 0 && *active < run.cfg.workers && !after_resize_or_death && matches!(run.cfg.routing, Routing::Queuer | Routing::RlQueuer) && !(run.cfg.rate_limited()) {
                     bad.push(format!(
-                        "after step {step} of {:?}: {q} job(s) wait in the factory queue while only {active} of {} workers are busy ({in_progress} jobs in progress)",
+                        "{sig}after step {step} of {:?}: {q} job(s) wait in the factory queue while only {active} of {} workers are busy ({in_progress} jobs in progress)",
                         run.history, run.cfg.workers
                     ));
                 }
